@@ -131,6 +131,14 @@ def gen_cases(ctx, n):
                         {"op": "req", "req": ("PrepareWrite", r["handle"], 0, data[::-1]), "hooks": {}},
                         {"op": "req", "req": ("ExecuteWrite", 1), "hooks": {}},
                         {"op": "req", "req": ("Read", r["handle"]), "hooks": {}}]
+        dups = U.dup_uuid_rows(U.flatten(spec))
+        if dups and g.connected:
+            # procedures that select by type / UUID on characteristic UUIDs shared by several characteristics
+            # (different properties / security), with the value of each of them
+            for r in rng.sample(dups, min(len(dups), 4)):
+                ty = struct.unpack("<H", r["type"])[0]
+                evs.append({"op": "req", "req": ("FindByTypeValue", 1, 0xFFFF, ty, r["value"][:16]), "hooks": {}})
+            evs.append({"op": "req", "req": ("ReadByType", 1, 0xFFFF, struct.unpack("<H", dups[0]["type"])[0]), "hooks": {}})
         cases.append((spec, evs))
     return cases
 
